@@ -29,8 +29,8 @@ ASSUMPTIONS = ["volatile fields are exactly: run_id (header and identity.run_id)
 REQUIRED_PROBES = ["reused_pipeline_second_traced_run", "reused_pipeline_with_sweep", "failing_subject", "history_contains_other_config",
                    "result_object_fed_back"]
 CONFIG = {
-    "quick": {"runs": 600, "budget_s": 150, "timeout_s": 120},
-    "thorough": {"runs": 20000, "budget_s": 1500, "timeout_s": 120},
+    "quick": {"runs": 2000, "budget_s": 240, "timeout_s": 120},
+    "thorough": {"runs": 60000, "budget_s": 1500, "timeout_s": 120},
     "shrink_s": 40.0,
 }
 VOLATILE_TOP = {"run_id", "timestamp", "seq"}
